@@ -76,6 +76,14 @@ func classify(ty types.Type) (kind, int) {
 	return kBad, 0
 }
 
+// optOf: Option of a Lean type (parenthesised when it is an application)
+func optOf(ty string) string {
+	if strings.Contains(ty, " ") && !(strings.HasPrefix(ty, "(") && strings.HasSuffix(ty, ")")) {
+		return "Option (" + ty + ")"
+	}
+	return "Option " + ty
+}
+
 func leanTypeOfKind(k kind) string {
 	switch k {
 	case kByte:
@@ -100,7 +108,7 @@ func (t *tr) leanType(ty types.Type) string {
 	if k == kErr && t.f != nil && t.f.stateful {
 		return "Nat"
 	}
-	if k == kRec || k == kRecList || k == kSet || k == kAbs {
+	if k == kRec || k == kRecList || k == kSet || k == kAbs || k == kOpt {
 		return leanTypeStatic(ty)
 	}
 	if k == kBad {
@@ -222,7 +230,7 @@ func (t *tr) leanResult(tup *types.Tuple) string {
 		s = "Unit"
 	}
 	if opt {
-		if n > 1 || strings.Contains(s, " × ") {
+		if n > 1 || strings.Contains(s, " × ") || (strings.Contains(s, " ") && !strings.HasPrefix(s, "(")) {
 			s = "(" + s + ")"
 		}
 		return "Option " + s
@@ -270,6 +278,8 @@ type fctx struct {
 	applyops map[string]opq          // printed callee -> length-preserving keyed transformation written into the destination
 	closureLits map[types.Object]*ast.FuncLit // all local procedures of the definition (static)
 	closures map[types.Object]*ast.FuncLit // local procedures `f := func(…) {…}` (no results): calls are inlined
+	everAssigned map[types.Object]bool // variables assigned anywhere in the function body (after their definition)
+	consumesParams bool
 	consumed map[types.Object]bool   // abstract objects behind pointers handed to a translated callee (which may change them): no read before the next assignment
 	errBool  map[types.Object]bool   // error variables kept as "is an error" Booleans (Option mode)
 	stepops  map[string]opq          // printed callee X.m -> function (object, args…) ↦ results… × object
@@ -494,6 +504,12 @@ func (t *tr) expr(e ast.Expr) string {
 		return t.expr(x.X)
 	case *ast.Ident:
 		if x.Name == "nil" {
+			if k, _ := t.kindOf(x); k == kOpt {
+				return "none"
+			}
+			if k, _ := t.kindOf(x); k == kRecList {
+				return "[]"
+			}
 			return "([] : Bytes)"
 		}
 		obj := t.objOf(x)
@@ -559,6 +575,16 @@ func (t *tr) expr(e ast.Expr) string {
 		if cl, ok := x.X.(*ast.CompositeLit); ok && x.Op == token.AND {
 			return t.expr(cl) // &T{…}: the struct value (tuple of its supported fields)
 		}
+		if x.Op == token.AND {
+			if kk, _ := t.kindOf(x); kk == kOpt {
+				// &v of a basic variable that is never assigned again: a pointer to its (constant) value
+				id, ok := x.X.(*ast.Ident)
+				if !ok || t.objOf(id) == nil || t.f.everAssigned[t.objOf(id)] {
+					return t.fail(e, "address of %s (only of a variable that is never assigned)", t.src(x.X))
+				}
+				return "(some " + t.expr(x.X) + ")"
+			}
+		}
 		k, w := t.kindOf(x)
 		switch {
 		case x.Op == token.NOT:
@@ -569,6 +595,12 @@ func (t *tr) expr(e ast.Expr) string {
 			return "(~~~" + t.expr(x.X) + ")"
 		}
 		return t.fail(e, "unary operator %s on %s", x.Op, t.typeOf(x))
+	case *ast.StarExpr:
+		if kk, _ := t.kindOf(x.X); kk == kOpt {
+			// *p: Go panics on nil (poison: the zero value)
+			return "((" + t.expr(x.X) + ").getD default)"
+		}
+		return t.fail(e, "dereference of %s", t.typeOf(x.X))
 	case *ast.CallExpr:
 		return t.call(x)
 	case *ast.IndexExpr:
@@ -748,8 +780,8 @@ func (t *tr) cond(e ast.Expr) string {
 					return fmt.Sprintf("(%s %s %s)", t.expr(x.X), sym, t.expr(x.Y))
 				}
 			}
-			if ka != kb || ka == kBad || ka == kErr || (ka == kBytes && true) {
-				// string comparison would be fine semantically, but it is not needed: refuse
+			if ka != kb || ka == kBad || ka == kErr || ka >= kRec || (ka == kBytes && x.Op != token.EQL && x.Op != token.NEQ) {
+				// strings / byte arrays: equality is equality of the values; order comparisons are refused
 				return t.fail(e, "comparison of %s and %s", t.typeOf(x.X), t.typeOf(x.Y))
 			}
 			op := map[token.Token]string{token.EQL: "=", token.NEQ: "≠", token.LSS: "<", token.GTR: ">", token.LEQ: "≤", token.GEQ: "≥"}[x.Op]
@@ -1216,6 +1248,7 @@ func (t *tr) callSig(name string, sg *fsig, c *ast.CallExpr) string {
 	for i, b := range sg.binders {
 		if sg.implicit[i] {
 			if src, isPath := sg.pathSrc[b.name]; isPath {
+				src = t.mapCalleePath(c, src)
 				v, ok := t.f.env[t.pathVarNamed(src, c.Pos(), sg.pathTy[b.name])]
 				if !ok {
 					return t.fail(c, "callee %s needs %s, which has no value here", name, src)
@@ -1235,7 +1268,10 @@ func (t *tr) callSig(name string, sg *fsig, c *ast.CallExpr) string {
 		args = append(args, t.expr(c.Args[next]))
 		if id, ok := c.Args[next].(*ast.Ident); ok {
 			if _, isPtr := t.typeOf(id).(*types.Pointer); isPtr {
-				if k, _ := classify(t.typeOf(id)); k == kAbs && t.objOf(id) != nil {
+				if k, _ := classify(t.typeOf(id)); k == kAbs && t.objOf(id) != nil && sg.consumes {
+					if _, isParam := t.f.rootCanon[t.objOf(id)]; isParam {
+						t.f.consumesParams = true
+					}
 					defer func(o types.Object) { t.f.consumed[o] = true }(t.objOf(id))
 				}
 			}
